@@ -209,7 +209,7 @@ def basic_glue(c, e1names=None, with_ep=True, with_mt=True):
                 ctors.append('("%s", "contract", "new") => { let m = <%s>::new(%s); json!({"json": vsupport::js(&m)}) },' % (k, t, args))
         arms.append('"ctor" => { let a: Vec<Value> = vsupport::args_of(&c.input); match (c.kind.as_str(), c.part.as_str(), c.extra["fn"].as_str().unwrap_or("")) {\n            %s\n            _ => json!({"machinery": "bad ctor"}),\n        } },' % "\n            ".join(ctors))
     # remote helpers (C10): executor / querier helper traits, names read from E1
-    if e1names and with_ep and c.entry_points is not None:
+    if e1names and with_ep and c.entry_points is not None and not any(o.split("=")[0].strip() in ("query", "exec") for o in c.overrides):
         rex, rq = [], []
         dyn_assoc = lambda i: "".join(", %s = %s" % (n, t) for n, t in ([("ExecC", cmsg)] if i.exec_c else []) + ([("QueryC", cqry)] if i.query_c else []) + list(i.assoc_impl))
         for (label, tys) in parts_of(c):
